@@ -514,8 +514,18 @@ func c08OpenOnce(r *Run, p *Prog) {
 				opens = append(opens, c)
 			}
 		})
+		opensViaHelper := false
 		if len(opens) == 0 {
-			continue
+			for _, g := range p.withHelpers(fn, 1)[1:] {
+				eachInstr(g, func(in ssa.Instruction) {
+					if c, ok := in.(*ssa.Call); ok && c.Call.IsInvoke() && (c.Call.Method.Name() == "Open" || c.Call.Method.Name() == "OpenDir") && isP9P(c.Call.Value.Type(), "Dirent") {
+						opensViaHelper = true
+					}
+				})
+			}
+			if !opensViaHelper {
+				continue
+			}
 		}
 		var refParam *ssa.Parameter
 		for _, prm := range fn.Params {
@@ -525,21 +535,20 @@ func c08OpenOnce(r *Run, p *Prog) {
 		}
 		for _, c := range opens {
 			n++
-			okGuard := false
-			for _, cd := range condsAtInstr(c) {
-				nc := normCond(cd)
+			okGuard := p.guardedHereOrAtCallers(c, func(nc Cond) bool {
 				b, ok := nc.V.(*ssa.BinOp)
 				if !ok {
-					continue
+					return false
 				}
 				for _, pair := range [][2]ssa.Value{{b.X, b.Y}, {b.Y, b.X}} {
 					if isNilConst(pair[1]) && isLoadOfField(pair[0], "SFid", "File") {
 						if (b.Op == token.EQL) == nc.Truth { // File == nil
-							okGuard = true
+							return true
 						}
 					}
 				}
-			}
+				return false
+			}, 2)
 			r.Check(okGuard, "open-once", fnName(fn)+": "+c.Call.Method.Name()+" only when File == nil", c.Pos(), "a fid can be opened twice (the second open replaces the first file without closing it)")
 		}
 		// success stores File (non-nil value) and Mode = mode parameter
